@@ -73,6 +73,18 @@ def _cases(tier, seed):
                 cs.append({'scen': 'tt_getitem', 's': {'N': N, 'R': R, 'dtype': 'float64', 'index': [it], 'bare': True}})
         else:
             cs.append({'scen': 'tt_getitem', 's': {'N': N, 'R': R, 'dtype': 'float64', 'index': ['ell'], 'bare': True}})
+    # None entries combined with a leading / trailing Ellipsis, singleton modes and integers under or next to the Ellipsis
+    SL = ['slice', None, None, None]
+    for N, R in [([3, 1, 2, 1], [1, 2, 2, 1, 1]), ([2, 3, 2], [1, 2, 2, 1]), ([1, 2], [1, 1, 1])]:
+        d = len(N)
+        forms = [['none', 'ell'], ['none', 'none', 'ell'], ['none', ['symint', N[0]], 'ell'], [['symint', N[0]], 'none', 'ell'], ['none', SL, 'ell'], ['none', SL, ['symint', N[1]], 'ell'],
+                 ['ell', 'none'], ['ell', 'none', 'none'], ['ell', ['symint', N[-1]], 'none'], ['ell', 'none', ['symint', N[-1]]], ['ell', 'none', SL]]       # (an Ellipsis in the middle is not among the forms the property covers)
+        if d >= 3:
+            forms += [['none', ['symint', N[0]], 'none', 'ell'], ['none', ['symint', N[0]], ['symint', N[1]], 'ell'], ['ell', ['symint', N[-2]], 'none', SL]]
+        for f in forms:
+            if sum(1 for k in f if k not in ('none', 'ell')) > d:
+                continue
+            cs.append({'scen': 'tt_getitem', 's': {'N': N, 'R': R, 'dtype': 'float64', 'index': [k if isinstance(k, str) else list(k) for k in f]}})
     # concrete negative / positive ints
     cs.append({'scen': 'tt_getitem', 's': {'N': [2, 3], 'R': [1, 2, 1], 'dtype': 'float64', 'index': [['int', -1], ['int', 2]]}})
     cs.append({'scen': 'tt_getitem', 's': {'N': [2, 3], 'R': [1, 2, 1], 'dtype': 'complex128', 'index': [['symint', 2], ['slice', 1, None, None]]}})
@@ -126,6 +138,12 @@ def _cases(tier, seed):
         if d == 1:
             for it in ('int', S_SS, S_STEP, 'ell'):
                 cs.append({'scen': 'getitem_shape', 's': {'d': 1, 'B': Bs, 'index': [it if isinstance(it, str) else list(it)], 'bare': True}, 'opts': SH})
+    for d in (2, 3):
+        for idx in (['none', 'ell'], ['none', 'none', 'ell'], ['none', 'int', 'ell'], ['int', 'none', 'ell'], ['none', S_S1, 'ell'], ['ell', 'none'], ['ell', 'int', 'none'], ['ell', 'none', 'int'], ['ell', 'none', S_2],
+                    ['none', 'int', 'none', 'ell'], ['none', 'int', 'int', 'ell']):
+            if sum(1 for k in idx if k not in ('none', 'ell')) > d:
+                continue
+            cs.append({'scen': 'getitem_shape', 's': {'d': d, 'B': Bs, 'index': [k if isinstance(k, str) else list(k) for k in idx]}, 'opts': SH})
     # fewer indices than modes (with and without None): an error, or else exactly the dense shape
     for d in (2, 3):
         for idx in (['int'], [S_ALL], ['none', 'int'], ['int', 'none'], ['none', S_ALL], ['none', 'int', 'int'][:d], ['int', 'none', S_2][:d], ['none', 'none', 'int']):
